@@ -135,8 +135,15 @@ pub fn catalogue() -> Vec<Config> {
         ci(18, "avar2-checker@16 default", font_test_data::AVAR2_CHECKER, 16.0, &[], smooth()),
         ci(19, "vazirmatn@13 default", font_test_data::VAZIRMATN_VAR, 13.0, &[], Target::Mono),
         ci(20, "colrv0v1-variable@13 default", font_test_data::COLRV0V1_VARIABLE, 13.0, &[], smooth()),
+        // a second auto-hinted font with a different script: glyph styles must not survive a change of font
+        c(21, "notoserif-tc-autohint@16", font_test_data::NOTOSERIFTC_AUTOHINT_METRICS.to_vec(), 16.0, &[], smooth()),
+        // the auto-hinter asked for explicitly, on four fonts of different scripts and glyph counts
+        Config { engine: Engine::Auto(None), id: 22, name: "notoserif-hebrew auto@19", font: font_test_data::NOTOSERIFHEBREW_AUTOHINT_METRICS.to_vec(), size: 19.0, coords: vec![], target: Target::default() },
+        Config { engine: Engine::Auto(None), id: 23, name: "notoserif-tc auto@19", font: font_test_data::NOTOSERIFTC_AUTOHINT_METRICS.to_vec(), size: 19.0, coords: vec![], target: Target::default() },
+        Config { engine: Engine::Auto(None), id: 24, name: "autohint-cmap auto@19", font: font_test_data::AUTOHINT_CMAP.to_vec(), size: 19.0, coords: vec![], target: Target::default() },
+        Config { engine: Engine::Auto(None), id: 25, name: "notoserif-shaping auto@19", font: font_test_data::NOTOSERIF_AUTOHINT_SHAPING.to_vec(), size: 19.0, coords: vec![], target: Target::default() },
     ];
-    v.truncate(20);
+    v.truncate(25);
     v
 }
 
@@ -224,7 +231,7 @@ fn draw_one(font: &FontRef, gid: u32, inst: &HintingInstance, pedantic: bool, me
 }
 
 fn glyph_ids(font: &FontRef) -> Vec<u32> {
-    let n = font.outline_glyphs().iter().count().min(48) as u32;
+    let n = font.outline_glyphs().iter().count().min(160) as u32;
     (0..n).collect()
 }
 
